@@ -653,7 +653,9 @@ def hilberthuang_1d(infr, inam, freq_edges, mode='energy'):
     specs = np.zeros((len(freq_edges) - 1, infr.shape[1]))
 
     # Remove values outside the bin range
-    infr = infr.copy()  # Don't work in place on input freqs
+    # Don't work in place on input freqs - the copy must be able to hold NaN,
+    # integer frequency arrays (eg whole Hz) are valid input
+    infr = np.array(infr, dtype=float)
     outside_inds = (infr < freq_edges[0]) + (infr > freq_edges[-1])
     infr[outside_inds] = np.nan
 
